@@ -6,9 +6,9 @@ from fractions import Fraction
 from harness import common as C
 
 ID = 'C19'
-N = {'quick': 600, 'thorough': 12000}
+N = {'quick': 500, 'thorough': 12000}
 SEARCH_N = {'quick': 1200, 'thorough': 8000}
-SHARD = 75
+SHARD = 63
 RULE = ('in-memory 1-D files: 1..30 records, 1..5 dependent variables, doubles of magnitude 1e-300..1e300 (mostly 1e-30..1e30), '
         'negative, zero, integers; int and float missing codes (7-digit and longer); masked cells with fill = code or not; 0..8 header '
         'attributes in random order with values containing colons, leading blanks, empty strings, newlines (adversarial), LLOD/ULOD '
@@ -20,6 +20,7 @@ TRUSTED = ['binary64 <-> decimal: a double parsed from a <=7-digit decimal is id
            'checked per case: float("%.6e" % y) == y for every value read back',
            'glibc printf("%.6e") rounds the exact binary value half-even (model fmt6e works on the exact decimal expansion of the double)',
            'numpy.genfromtxt: non-numeric fields -> nan, blank lines skipped, inconsistent column count -> ValueError (modelled)',
+           'the numeric value of a missing code is taken from str(code) (exact for ints and shortest-repr floats up to 7-digit rounding ties)',
            'date line (SDATE/WDATE) parsing and datetime range: dates fixed valid, independent values |t| <= 1e9 or >= 1e12',
            'Python str()/eval() of int and float missing codes (the harness passes str(code) to the model; parse_num in the model is compared through F)']
 ASSUMPTIONS = ['attribute keys are identifiers not starting with "_" and not variables/dimensions/groups; text is ASCII without "#", quotes or parentheses',
@@ -132,10 +133,10 @@ def gen(rng, n, tier):
         n_hdr = len(user) + ndep + 15
         if kind in ('valid-short',):
             nrec = rng.randint(1, max(1, 27 - n_hdr - 1))
-        elif kind.startswith('valid-long') or kind == 'lod-both' or kind == 'valid-indep':
-            nrec = max(1, 28 - n_hdr) + rng.randint(0, 6)
+        elif rng.random() < 0.2:
+            nrec = max(1, 28 - n_hdr) + rng.randint(0, 4)
         else:
-            nrec = rng.randint(1, 14)
+            nrec = rng.randint(1, 9)
         # variables
         vs = []
         t0 = rng.randint(0, 86400)
@@ -157,7 +158,6 @@ def gen(rng, n, tier):
             vs.append(dict(name=nm, units=units, code=code, fill=code, cells=cells, mask=mask))
         # independent variable consistent with what the text can carry (region 0) unless stated otherwise
         if kind != 'valid-indep' and (kind.startswith('valid-long') or rng.random() < 0.8):
-            vs[0]['units'] = names[0]
             vs[0]['code'] = vs[0]['fill'] = firstcode
         if kind == 'token':
             w = rng.choice(['slash', 'unit-comma', 'unit-pad', 'unit-none'])
@@ -192,6 +192,8 @@ def gen(rng, n, tier):
             q = rng.randrange(nrec)
             vs[j]['mask'][q] = False
             vs[j]['cells'][q] = float(c) * (1 + rng.choice([0, 1e-9, -3e-9, 2e-8])) if c != 0 else rng.choice([0.0, 1e-320])
+            if float(vs[j]['cells'][q]) == float(c):
+                kind = 'collide-exact'
         if kind == 'mal-no-dep':
             vs = vs[:1]
         if kind == 'mal-indep-huge':
@@ -469,10 +471,15 @@ def py_check(case, obs):
             why.append('names/order %r != %r' % ([v['name'] for v in rv], [v['name'] for v in order]))
         else:
             for a, b in zip(order, rv):
+                rc = _code_obj((order[1] if a is order[0] and len(order) > 1 else a)['code'])
+                rc = -999 if rc is None else rc
+                if any(x is not None and float.fromhex(x) == float(rc) for x in a['cells']):
+                    continue        # an unmasked value equal to the code the text carries for it IS a missing value: outside the domain
                 if a['units'] != b['units']:
                     why.append('units of %s: %r -> %r' % (a['name'], a['units'], b['units']))
                 co = _code_obj(a['code'])
-                if co is None or float(co) != float(Decimal(b['code_s'])):
+                co = -999 if co is None else co          # documented default of the writer
+                if float(co) != float(Decimal(b['code_s'])):
                     why.append('missing code of %s: %r -> %s' % (a['name'], co, b['code_s']))
                 for q, (x, y) in enumerate(zip(a['cells'], b['cells'])):
                     if (x is None) != (y == 'M'):
@@ -535,17 +542,18 @@ def shrink(case):
             yield dict(case, vars=[dict(v, cells=v['cells'][:q] + v['cells'][q + 1:]) for v in vs])
 
 
-LEVEL_TEXT = ('Theorems (Props/C19.v, all closed under the global context) over a character-level Gallina model of ncf2ffi1001 and '
-              'ffi1001.__init__: full strength for all variable/attribute counts: the line classification of the reader\'s if/elif chain '
-              'equals the writer\'s layout iff the declared count is attributes + variables + 15 (C19_line_classes_head, C19_line_classes, '
-              'C19_count_off_by_one), declared = actual header count when no field contains a newline (C19_header_count_exact), each header '
-              'line parser inverts its printer (C19_desc_line, C19_names_line, C19_user_line), %.6e is a canonical 7-digit decimal within half a '
-              'unit of the 7th digit and idempotent (C19_values_seven_digits, C19_values_canonical, C19_print_idempotent); _partial: per-cell mask/value '
-              'round trip and second cycle (C19_cell_roundtrip_partial, C19_second_cycle_cell_partial), auto-detection (C19_autodetect_partial); the '
-              'whole-file composition is UNPROVED (kept as a comment), evaluated by vm_compute on a witness (C19_domain_inhabited) and compared with '
-              'the library on every case; _refuted with vm_compute witnesses = known findings: C19_header_count_refuted, C19_indep_meta_refuted, '
-              'C19_mask_long_code_refuted, C19_mask_fill_refuted, C19_value_collision_refuted, C19_lod_flag_refuted, C19_name_slash_refuted, '
-              'C19_unit_comma_refuted, C19_autodetect_refuted, C19_autodetect_level_refuted. Tie H: text line by line, reader result, getreader class, second cycle.')
+LEVEL_TEXT = ('Theorems (Props/C19.v, all closed under the global context) over a character-level Gallina model of the REPAIRED ncf2ffi1001 / '
+              'ffi1001.__init__ / l100.isMine (fixes C19-attr-newline, C19-lod-flag, C19-write-missing-code, C19-indep-meta, C19-l100-isMine): '
+              'full strength for all variable/attribute counts: line classification of the reader = writer layout iff the declared count is '
+              'attributes + variables + 15 (C19_line_classes_head, C19_line_classes, C19_count_off_by_one); declared = actual header count for ANY '
+              'attribute values (C19_header_count_exact, C19_attr_value_one_line); every header line parser inverts its printer (C19_desc_line, '
+              'C19_names_line, C19_user_line, C19_codes_line, C19_codes_count); %.6e is a canonical 7-digit decimal within half a unit of the 7th '
+              'digit, idempotent (C19_values_seven_digits, C19_values_canonical, C19_print_idempotent); auto-detection selects ffi1001 unless a line '
+              'carries the eight L100 column names (C19_autodetect, C19_few_tokens_not_claimed); _partial: per-cell mask/value round trip and second '
+              'cycle for codes that are 7-digit decimals (C19_cell_roundtrip_partial, C19_second_cycle_cell_partial); the whole-file composition is '
+              'UNPROVED (comment), evaluated by vm_compute (C19_domain_inhabited, C19_repaired_cases) and compared with the library on every case; '
+              '_refuted = remaining known findings: C19_indep_code_refuted, C19_mask_long_code_refuted, C19_value_collision_refuted, '
+              'C19_name_slash_refuted, C19_unit_comma_refuted. Tie H: text line by line, reader result, getreader class, second cycle.')
 LEVEL_NOTE = ('Trusted: Coq kernel + vm_compute; the harness; binary64 <-> <=15-digit decimal round trip and glibc %.6e rounding (checked per case); '
               'numpy.genfromtxt semantics as modelled; date-line parsing not modelled.')
 TECHNIQUE = 'Coq proof (induction over variables / attributes / header lines) + vm_compute refutation witnesses + differential correspondence'
